@@ -991,11 +991,11 @@ func runC08(r *Run) {
 	r.Explain = "Static decision of structural necessary conditions of C08 (determinism): in every repository function reachable from block execution, transaction handling, the ante chain, the precompiles, the wired hooks and InitGenesis, (R1) every range over a Go map is order-insensitive: what it does to state that outlives one iteration is an exact commutative accumulation, an idempotent/constant assignment, a running maximum/minimum, a write/delete/store call addressed by the iteration variables, a diagnostic string, or an append to a local slice whose every later use hides the order (sorted by a total order, consumed by order-insensitive loops, or returned to callers whose uses are checked the same way, interprocedurally); (R2) nothing reads the wall clock, randomness, the process environment or starts goroutines; (R3) the only package-level variables written are the audited oracle singletons; (R4) the CheckTx/simulate copy of the oracle aggregator shares no mutable object with the deliver-state aggregator."
 	r.NotDec = []string{"byte-identical app hashes as a run-time fact", "non-determinism inside dependencies (cosmos-sdk, evmos, go-ethereum)", "floating point in dependencies", "restart equivalence of the oracle singletons (C14)"}
 	r.Assume = []string{"distinct iteration keys address distinct store keys / map entries when the key or index expression is derived from the iteration variables", "sdk Int/Dec/Coins Add and Sub are exact"}
-	r.rule("C08.R1", "every reachable range-over-map loop is order-insensitive (per loop: constructs judged and why)", 23)
-	r.rule("C08.R1p", "slices built in map order and returned: every caller's use hides the order", 5)
-	r.rule("C08.R2", "no wall clock, randomness, process environment, goroutines or select in consensus-reachable code", 600)
-	r.rule("C08.R3", "package-level variables written from consensus-reachable code are exactly the audited set", 11)
-	r.rule("C08.R4", "CheckTx/simulate copy of the aggregator context: every mutable field is a fresh object with fresh elements; shared fields are never written on the CheckTx path", 7)
+	r.rule("C08.R1", "every reachable range-over-map loop is order-insensitive (per loop: constructs judged and why)", 15)
+	r.rule("C08.R1p", "slices built in map order and returned: every caller's use hides the order", 3)
+	r.rule("C08.R2", "no wall clock, randomness, process environment, goroutines or select in consensus-reachable code", 400)
+	r.rule("C08.R3", "package-level variables written from consensus-reachable code are exactly the audited set", 8)
+	r.rule("C08.R4", "CheckTx/simulate copy of the aggregator context: every mutable field is a fresh object with fresh elements; shared fields are never written on the CheckTx path", 5)
 
 	oc := &orderCtx{w: w, producers: map[*types.Func]map[int]bool{}}
 	reach := consensusReachable(w)
